@@ -11,6 +11,7 @@ import (
 	"sort"
 	"strconv"
 	"strings"
+	"time"
 
 	"github.com/go-kit/log"
 	"github.com/oklog/ulid/v2"
@@ -79,6 +80,48 @@ type c11Index struct {
 var c11Cache = map[string]*c11Index{}
 var c11CacheOrder []string
 
+// c11Enc / c11Dec: strings in index specs and queries.  Hex, except that a long run of one byte at the
+// start is written R<run length>.<byte hex>.<hex of the rest> (label names and values of 16 KB).
+func c11Enc(s string) string {
+	run := 0
+	for run < len(s) && s[run] == s[0] {
+		run++
+	}
+	if run >= 48 {
+		rest := "-"
+		if run < len(s) {
+			rest = hlib.HexS(s[run:])
+		}
+		return fmt.Sprintf("R%d.%02x.%s", run, s[0], rest)
+	}
+	return hlib.HexS(s)
+}
+
+func c11Dec(tok string) (string, bool) {
+	if !strings.HasPrefix(tok, "R") {
+		return unhexS(tok)
+	}
+	parts := strings.Split(tok[1:], ".")
+	if len(parts) != 3 || len(parts[1]) != 2 {
+		return "", false
+	}
+	n, err := strconv.Atoi(parts[0])
+	b, ok := unhexS(parts[1])
+	if err != nil || n < 48 || n > 1<<20 || !ok || len(b) != 1 {
+		return "", false
+	}
+	rest := ""
+	if parts[2] != "-" {
+		if rest, ok = unhexS(parts[2]); !ok {
+			return "", false
+		}
+	}
+	if rest != "" && rest[0] == b[0] {
+		return "", false // not canonical
+	}
+	return strings.Repeat(b, n) + rest, true
+}
+
 func parseIndexSpec(spec string) (map[string][]string, []string, bool) {
 	m := map[string][]string{}
 	var order []string
@@ -90,12 +133,12 @@ func parseIndexSpec(spec string) (map[string][]string, []string, bool) {
 		if len(kv) != 2 {
 			return nil, nil, false
 		}
-		name, ok := unhexS(kv[0])
+		name, ok := c11Dec(kv[0])
 		if !ok || name == "" {
 			return nil, nil, false
 		}
 		for _, v := range strings.Split(kv[1], ",") {
-			val, ok := unhexS(v)
+			val, ok := c11Dec(v)
 			if !ok || val == "" {
 				return nil, nil, false
 			}
@@ -334,6 +377,7 @@ func (ix *c11Index) derived(name string, wanted []string) (nextOff uint64, tbl, 
 // is found iff the full index has the pair; the range is the full index's (the end of the very last
 // posting list of the table may be over-estimated, never under-estimated).
 func c11CheckRanges(c *hlib.Ctx, ix *c11Index, name string, wanted []string, rngs []index.Range, n int) {
+	shown := c11Abbrev(name)
 	if len(rngs) != len(wanted) {
 		c.Violation("result-length", fmt.Sprintf("%d ranges for %d values", len(rngs), len(wanted)))
 		return
@@ -344,17 +388,25 @@ func c11CheckRanges(c *hlib.Ctx, ix *c11Index, name string, wanted []string, rng
 		got := rngs[i]
 		switch {
 		case present && got == indexheader.NotFoundRange:
-			c.Violation("present-value-not-found", fmt.Sprintf("%q=%q (position %d of %d wanted, sampling %d) exists in the index but the header says not found", name, w, i, len(wanted), n))
+			c.Violation("present-value-not-found", fmt.Sprintf("%q=%q (position %d of %d wanted, sampling %d) exists in the index but the header says not found", shown, c11Abbrev(w), i, len(wanted), n))
 		case !present && got != indexheader.NotFoundRange:
-			c.Violation("absent-value-found", fmt.Sprintf("%q=%q does not exist but the header returns %v", name, w, got))
+			c.Violation("absent-value-found", fmt.Sprintf("%q=%q does not exist but the header returns %v", shown, c11Abbrev(w), got))
 		case present && got.Start != exact.Start:
-			c.Violation("range-start-mismatch", fmt.Sprintf("%q=%q: header %v, index %v", name, w, got, exact))
+			c.Violation("range-start-mismatch", fmt.Sprintf("%q=%q: header %v, index %v", shown, c11Abbrev(w), got, exact))
 		case present && l == ix.lastLabel && got.End < exact.End:
-			c.Violation("range-end-mismatch", fmt.Sprintf("%q=%q (last entry): header %v, index %v", name, w, got, exact))
+			c.Violation("range-end-mismatch", fmt.Sprintf("%q=%q (last entry): header %v, index %v", shown, c11Abbrev(w), got, exact))
 		case present && l != ix.lastLabel && got.End != exact.End:
-			c.Violation("range-end-mismatch", fmt.Sprintf("%q=%q: header %v, index %v", name, w, got, exact))
+			c.Violation("range-end-mismatch", fmt.Sprintf("%q=%q: header %v, index %v", shown, c11Abbrev(w), got, exact))
 		}
 	}
+}
+
+// c11Abbrev shortens a long label name or value for a message.
+func c11Abbrev(s string) string {
+	if len(s) <= 48 {
+		return s
+	}
+	return fmt.Sprintf("%s…(%d bytes)…%s", s[:12], len(s), s[len(s)-8:])
 }
 
 func c11ParseWanted(tok string) ([]string, bool) {
@@ -367,7 +419,7 @@ func c11ParseWanted(tok string) ([]string, bool) {
 		s := ""
 		if len(w) > 1 {
 			var ok bool
-			if s, ok = unhexS(w[1:]); !ok {
+			if s, ok = c11Dec(w[1:]); !ok {
 				return nil, false
 			}
 		}
@@ -381,7 +433,7 @@ func c11HexList(ws []string) string {
 	for i, w := range ws {
 		hw[i] = "x"
 		if w != "" {
-			hw[i] += hlib.HexS(w)
+			hw[i] += c11Enc(w)
 		}
 	}
 	return hlib.Join(hw, ",")
@@ -473,7 +525,51 @@ func (ix *c11Index) derivedV1(name string, wanted []string) (tbl, nm, wr string,
 	return hlib.Join(ts, ","), strconv.Itoa(nrank[name]), hlib.Join(ws, ","), vrank
 }
 
+// c11Hung: index specs on which a call into the real header did not return.
+var c11Hung = map[string]bool{}
+
+// execC11 runs an op under a watchdog: a lookup that does not return within 15 s is a violation
+// (class lookup-hang); the goroutine is left behind, further ops on the same index are not run.
 func execC11(c *hlib.Ctx, tok []string) string {
+	spec := ""
+	if len(tok) > 0 {
+		switch {
+		case tok[0] == "ih.q" && len(tok) == 8, tok[0] == "ih.sym" && len(tok) == 7:
+			spec = tok[5]
+		case tok[0] == "ih.names" && len(tok) == 5:
+			spec = tok[3]
+		case tok[0] == "o.ih.meta" && len(tok) == 3:
+			spec = tok[2]
+		case tok[0] == "ih.v1":
+			spec = "v1"
+		}
+	}
+	if c11Hung[spec] {
+		c.Count("skipped:index-with-a-hung-lookup")
+		return "hang"
+	}
+	done := make(chan string, 1)
+	go func() {
+		defer func() {
+			if r := recover(); r != nil { // what hlib's safeExec does for a panic in the calling goroutine
+				c.Dist["impl-panic"]++
+				c.LastPanic = fmt.Sprint(r)
+				done <- "panic"
+			}
+		}()
+		done <- execC11Op(c, tok)
+	}()
+	select {
+	case out := <-done:
+		return out
+	case <-time.After(15 * time.Second):
+		c11Hung[spec] = true
+		c.Violation("lookup-hang", "a call into the index-header did not return within 15 s (op "+tok[0]+")")
+		return "hang"
+	}
+}
+
+func execC11Op(c *hlib.Ctx, tok []string) string {
 	if len(tok) == 0 {
 		return "bad-op"
 	}
@@ -483,7 +579,7 @@ func execC11(c *hlib.Ctx, tok []string) string {
 			return "bad-op"
 		}
 		n, err := strconv.Atoi(tok[1])
-		name, ok1 := unhexS(tok[6])
+		name, ok1 := c11Dec(tok[6])
 		if err != nil || n < 1 || !ok1 {
 			return "bad-op"
 		}
@@ -787,7 +883,7 @@ func execC11(c *hlib.Ctx, tok []string) string {
 			got, err := h.PostingsOffset(l.Name, l.Value)
 			if err != nil || got.Start != exact.Start || (l != ix.lastLabel && got.End != exact.End) || got.End < exact.End {
 				single++
-				firstBad = fmt.Sprintf("PostingsOffset(%q, %q) = %v, %v; index %v", l.Name, l.Value, got, err, exact)
+				firstBad = fmt.Sprintf("PostingsOffset(%q, %q) = %v, %v; index %v", c11Abbrev(l.Name), c11Abbrev(l.Value), got, err, exact)
 			}
 			if _, present := ix.ranges[labels.Label{Name: l.Name, Value: l.Value + "\x00"}]; !present {
 				if got, err := h.PostingsOffset(l.Name, l.Value+"\x00"); err != indexheader.NotFoundRangeErr {
@@ -868,6 +964,16 @@ func genIndexSpec(c *hlib.Ctx, n int) (string, map[string][]string, []string) {
 	var names []string
 	for len(names) < k {
 		name := r.Pick([]string{"a", "job", "instance", "__name__", "zone", "le", "a_very_long_label_name_for_skipping", "é"})
+		// sizes around the varint boundaries of the length prefixes (1/2 bytes at 128, 2/3 at 16384)
+		sizes := []int{127, 128, 129, 200, 16383, 16384}
+		nameLen, valueLen := 0, 0
+		if r.Chance(1, 4) {
+			nameLen = sizes[r.Intn(len(sizes))]
+			name = strings.Repeat("n", nameLen-1) + string(rune('a'+len(names)))
+			c.Count(fmt.Sprintf("name-bytes:%d", nameLen))
+		} else {
+			c.Count("name-bytes:short")
+		}
 		if _, ok := m[name]; ok {
 			continue
 		}
@@ -878,10 +984,25 @@ func genIndexSpec(c *hlib.Ctx, n int) (string, map[string][]string, []string) {
 		if cnt > 260 {
 			cnt = 260
 		}
+		if r.Chance(1, 5) {
+			valueLen = sizes[r.Intn(len(sizes))]
+			c.Count(fmt.Sprintf("value-bytes:%d", valueLen))
+		}
+		// every entry of the table repeats the name, every symbol is sent to the model once: keep big ones few
+		if (nameLen >= 16383 || valueLen >= 16383) && cnt > 7 {
+			cnt = 2 + cnt%6
+		} else if (nameLen >= 127 || valueLen >= 127) && cnt > 40 {
+			cnt = 2 + cnt%39
+		}
 		style := r.Intn(5)
 		set := map[string]struct{}{}
 		for i := 0; len(set) < cnt && i < 4*cnt+10; i++ {
 			v := c11Value(r, style, i)
+			if valueLen > 0 {
+				// a long common run, then what tells the values apart; some values one byte shorter/longer
+				tail := fmt.Sprintf("%03d", i)
+				v = strings.Repeat("v", valueLen-len(tail)+[]int{0, 0, -1, 1}[i%4]) + tail
+			}
 			if v != "" {
 				set[v] = struct{}{}
 			}
@@ -899,9 +1020,9 @@ func genIndexSpec(c *hlib.Ctx, n int) (string, map[string][]string, []string) {
 	for _, name := range names {
 		hv := make([]string, len(m[name]))
 		for i, v := range m[name] {
-			hv[i] = hlib.HexS(v)
+			hv[i] = c11Enc(v)
 		}
-		parts = append(parts, hlib.HexS(name)+"="+strings.Join(hv, ","))
+		parts = append(parts, c11Enc(name)+"="+strings.Join(hv, ","))
 	}
 	spec := strings.Join(parts, ";")
 	if r.Chance(1, 3) {
@@ -1126,11 +1247,11 @@ func genC11(c *hlib.Ctx) {
 					for i, w := range wanted {
 						hw[i] = "x"
 						if w != "" {
-							hw[i] += hlib.HexS(w)
+							hw[i] += c11Enc(w)
 						}
 					}
 					c.Count(fmt.Sprintf("wanted-len:%s", bucket(len(wanted))))
-					c.Do(fmt.Sprintf("ih.q %d %d %s %s %s %s %s", rate, nextOff, tbl, wr, spec, hlib.HexS(name), hlib.Join(hw, ",")), len(wanted) > 0)
+					c.Do(fmt.Sprintf("ih.q %d %d %s %s %s %s %s", rate, nextOff, tbl, wr, spec, c11Enc(name), hlib.Join(hw, ",")), len(wanted) > 0)
 				}
 			}
 		}
